@@ -15,6 +15,7 @@ import (
 	"time"
 
 	"github.com/alephium/wormhole-fork/node/pkg/common"
+	"github.com/alephium/wormhole-fork/node/pkg/db"
 	gossipv1 "github.com/alephium/wormhole-fork/node/pkg/proto/gossip/v1"
 	"github.com/alephium/wormhole-fork/node/pkg/vaa"
 	"github.com/ethereum/go-ethereum/crypto"
@@ -407,6 +408,69 @@ func vScripts() []vScript {
 				}
 			}
 			for _, d := range []int64{299, 1, 300, 301, 4000, 10, 290, 86400, 300} {
+				if !tick(dr, &T, d) {
+					return
+				}
+			}
+		}},
+		{"c14-pending-entries-whose-store-key-is-a-prefix-of-a-stored-vaas-key", func(dr *vDriver, w *vWorld) {
+			// the node signed sequences 1 and 2 of a stream and waits for quorum; the store holds quorum VAAs of the SAME stream with
+			// sequences 10, 11, 12, 20 and 100 (their keys start with the keys of 1 / 2 / 10): none of them is "the quorum VAA for the
+			// message", so the pending entries must survive settlement and be retried at five minutes
+			mem := members(3, 1)
+			gs := w.set(mem, 0)
+			dr.opClock(1000)
+			dr.opSetGS(gs)
+			base := w.msg(0)
+			T := int64(1000)
+			for _, sq := range []uint64{10, 11, 12, 20, 100} {
+				k := *base
+				k.Sequence = sq
+				k.Payload = w.r.bytes(12)
+				dr.opInbound(w.signedVAA(&k, gs, mem, []int{0, 1, 2}), "valid")
+			}
+			for _, sq := range []uint64{1, 2} {
+				k := *base
+				k.Sequence = sq
+				k.Payload = w.r.bytes(12)
+				copy(k.TxHash[:], w.r.bytes(32))
+				dr.opMsg(&k)
+				dr.opLoop(0)
+			}
+			for _, d := range []int64{31, 31, 240, 31, 300} {
+				if !tick(dr, &T, d) {
+					return
+				}
+			}
+		}},
+		{"fault-c14-store-unreadable-during-one-cleanup-tick", func(dr *vDriver, w *vWorld) {
+			// the store cannot be read while one cleanup tick runs (closed, reopened afterwards): a failed lookup is not "the quorum VAA is
+			// stored"; the pending own observation must still be there afterwards and be retried at five minutes
+			mem := members(3, 1)
+			dr.opClock(1000)
+			dr.opSetGS(w.set(mem, 0))
+			k := w.msg(0)
+			T := int64(1000)
+			dr.opMsg(k)
+			dr.opLoop(0)
+			if !tick(dr, &T, 31) || !tick(dr, &T, 90) {
+				return
+			}
+			dr.h.Faults = true
+			dr.dbDown = true
+			dr.d.Close()
+			if !tick(dr, &T, 31) {
+				return
+			}
+			if d2, err := db.Open(dr.dir); err == nil {
+				dr.d = d2
+				dr.p.db = d2
+				dr.dbDown = false
+			} else {
+				dr.h.Mon = append(dr.h.Mon, "harness: the store did not reopen: "+err.Error())
+				return
+			}
+			for _, d := range []int64{31, 150, 31} {
 				if !tick(dr, &T, d) {
 					return
 				}
